@@ -218,5 +218,18 @@ CHECKS["C13"] = {
     "technique": "exhaustive input enumeration (all byte strings up to a length bound) against an independent RFC 4648 reference and the specification decode function",
 }
 
+CHECKS["C14"] = {
+    "engine": "E3-exhaustive-enumerator",
+    "category": "exploration",
+    "text": "hash_bytes, murmur2_x86 and murmur2_x64 on the full product length 0..39 (thorough 0..71: every residue mod 4 and mod 8 over several blocks) x content families (all bytes = v, each single position = v over 00/FF "
+            "backgrounds, counting patterns, ALL one- and two-byte keys, quick: ALL 2^24 three-byte keys, thorough: ALL 2^32 four-byte keys) x 8 boundary seeds (thorough + 2^k, ~2^k) x start alignment 0..7 x surrounding fill "
+            "{00,FF} x placement (key ends at the last byte of an exact-size malloc block under ASan, or at/after an inaccessible guard page in a forked child), against an independently written byte-wise little-endian "
+            "MurmurHash2/64A reference that must reproduce the published SMHasher verification values at start-up. The fixed-string coherence is decided inside the C01 explorer for every reachable raw state of every layout "
+            "(equal strings reached by different histories, with different stale bytes, hash equally) and on strings built four different ways in seven fixed-string types.",
+    "design_ref": "DESIGN.md section 3, C14",
+    "note": "Trusted: the byte-wise reference (anchored to the SMHasher verification values). x86-64 little-endian only; the 32-bit size_t branch is unreachable. The unaligned 32-bit load in murmur2_x86 is deliberately not judged.",
+    "technique": "exhaustive input enumeration (length x content x seed x alignment x neighbourhood) against an independent reference with red-zone and guard-page over-read detection, plus explicit-state exploration of fixed-string states",
+}
+
 NOT_YET = "check not built yet in this round; design in DESIGN.md section 3"
 NOT_APPLICABLE = {}
